@@ -366,7 +366,7 @@ fn enc_history_props(ctx: &mut Ctx, st: &EncState, call: &EncCall, got: &Outcome
     ctx.count("r3.verdict_replays_on_fresh_object");
     if &fresh != got {
         extra.push("C05");
-        if st.rounds > 0 {
+        if st.since_reset > 0 {
             extra.push("C12"); // the round follows a dropped result: the drop did not start a clean round
         }
     }
@@ -445,7 +445,7 @@ fn dec_history_props(ctx: &mut Ctx, st: &DecState, call: &DecCall, got: &Outcome
     ctx.count("r3.verdict_replays_on_fresh_object");
     if &fresh != got {
         extra.push("C05");
-        if st.rounds > 0 {
+        if st.since_reset > 0 {
             extra.push("C12");
         }
     }
@@ -531,6 +531,8 @@ struct EncState {
     failed_ever: bool,
     held: Need,
     rounds: u32,
+    /// successful rounds since construction or the last explicit reset (each ended with a dropped result)
+    since_reset: u32,
 }
 
 fn enc_need(kind: Kind, cfg: (usize, usize, usize)) -> Need {
@@ -579,6 +581,7 @@ pub fn run_encoder(ch: &mut Chooser, ctx: &mut Ctx) {
         failed_ever: false,
         held: enc_need(kind, cfg),
         rounds: 0,
+        since_reset: 0,
     };
 
     let n_ops = 4 + ch.pick_usize("ops", 40);
@@ -712,6 +715,7 @@ pub fn run_encoder(ch: &mut Chooser, ctx: &mut Ctx) {
                 }
                 st.held = grow(st.held, need);
                 st.cfg = next;
+                st.since_reset = 0;
                 st.shards.clear();
                 st.failed_round = false;
                 st.has_history = true;
@@ -805,6 +809,7 @@ pub fn run_encoder(ch: &mut Chooser, ctx: &mut Ctx) {
                     failed_ever: false,
                     held: grow(held, need),
                     rounds: 0,
+                    since_reset: 0,
                 };
             }
             // ---------------------------------------------------- static probes
@@ -958,6 +963,9 @@ fn enc_encode(ch: &mut Chooser, ctx: &mut Ctx, obj: &mut dyn DynEncoder, st: &mu
                 if st.failed_round {
                     props.push("C07");
                 }
+                if st.since_reset > 0 {
+                    props.push("C12"); // the round follows a dropped result: the drop did not start a clean round
+                }
                 if ctx.viol(&props, "r3-fresh-object", format!("r3/encode/{}", if reused { "reused" } else { "first-use" }), format!("{}{:?}: recovery {j} differs from a freshly constructed encoder given the same {k} shards (object history: rounds={}, reused={}, failed call this round={})", st.kind.name(), st.cfg, st.rounds, st.has_history, st.failed_round), false) {
                     return true;
                 }
@@ -1042,6 +1050,7 @@ fn enc_encode(ch: &mut Chooser, ctx: &mut Ctx, obj: &mut dyn DynEncoder, st: &mu
 
     st.shards.clear();
     st.rounds += 1;
+    st.since_reset += 1;
     st.failed_round = false;
     st.data_seed = ch.seed64("data.seed");
     false
@@ -1101,6 +1110,7 @@ struct DecState {
     failed_ever: bool,
     held: Need,
     rounds: u32,
+    since_reset: u32,
 }
 
 fn dec_need(kind: Kind, cfg: (usize, usize, usize)) -> Need {
@@ -1124,6 +1134,7 @@ impl DecState {
             failed_ever: false,
             held,
             rounds: 0,
+            since_reset: 0,
         })
     }
     fn clear_round(&mut self) {
@@ -1574,6 +1585,9 @@ fn dec_decode(ch: &mut Chooser, ctx: &mut Ctx, obj: &mut dyn DynDecoder, st: &mu
             if st.failed_round {
                 props.push("C07");
             }
+            if st.since_reset > 0 {
+                props.push("C12");
+            }
             if ctx.viol(&props, "restores-original-bytes", format!("restore/{}", if reused { "reused" } else { "first-use" }), format!("{}{:?}: restored original {i} differs from the encoded original at byte {at} ({} originals + {} recovery given)", st.kind.name(), st.cfg, st.n_o, st.n_r), false) {
                 return true;
             }
@@ -1592,6 +1606,9 @@ fn dec_decode(ch: &mut Chooser, ctx: &mut Ctx, obj: &mut dyn DynDecoder, st: &mu
                 let mut props = vec!["C05"];
                 if st.failed_round {
                     props.push("C07");
+                }
+                if st.since_reset > 0 {
+                    props.push("C12");
                 }
                 if ctx.viol(&props, "r3-fresh-object", format!("r3/decode/{}", if reused { "reused" } else { "first-use" }), format!("{}{:?}: restored shards differ from a freshly constructed decoder given the same adds (rounds={}, reused={}, failed call this round={})", st.kind.name(), st.cfg, st.rounds, st.has_history, st.failed_round), false) {
                     return true;
@@ -1698,6 +1715,7 @@ fn dec_decode(ch: &mut Chooser, ctx: &mut Ctx, obj: &mut dyn DynDecoder, st: &mu
 
     st.clear_round();
     st.rounds += 1;
+    st.since_reset += 1;
     // the next round codes new data (a result that is really the previous round's would otherwise look right)
     if ch.chance("dec.newdata", 3, 4) {
         let fam = st.kind.layer.family();
